@@ -233,6 +233,59 @@ def make_variant(chunks, rng):
     return kind, iffparse.build(out), expect
 
 
+def foreign_variants(res, chunks, rng, k, generated=False):
+    """The fixture instrument as other writers might store it: ONE envelope chunk left out (the others present), undocumented high
+    bits set in a waveform chunk's format word.  What is present means what it says: the envelopes whose chunks are there load
+    exactly as from the complete file; format and channels come from the documented low bits."""
+    base = snapshot.snap_synth(workload.load(iffparse.build(chunks)))["module"]["payload"]
+    kind = ("one-envelope-missing", "chff-extra-bits")[k % 2]
+    out, skip, cur, dropped, touched = [], False, None, None, []
+    # (for instruments written by this library the volume envelope chunk stays: its record's old 12-point table is filled from the
+    #  current envelope, whatever its length, and only means something together with that chunk)
+    victim = rng.choice([0x103, 0x103, 0x104, 0x105, 0x108] + ([] if generated else [0x102])) if kind == "one-envelope-missing" else None
+    for cid, pl in chunks:
+        if cid == b"CHNM":
+            (cur,) = struct.unpack("<I", pl)
+            skip = cur == victim
+            if skip:
+                dropped = cur
+                continue
+        elif cid in (b"CHDT", b"CHFF", b"CHFR") and skip:
+            continue
+        elif cid not in (b"CHDT", b"CHFF", b"CHFR"):
+            skip = False
+        if kind == "chff-extra-bits" and cid == b"CHFF" and cur is not None and cur >= 2 and cur % 2 == 0 and cur < 0x100:
+            (w,) = struct.unpack("<I", pl)
+            extra = rng.choice([0x10, 0x100, 0x80000000, 0x40, 0x10000])
+            pl = struct.pack("<I", w | extra)
+            touched.append((cur, extra))
+        out.append((cid, pl))
+    desc = {"variant": kind, "dropped": dropped, "touched": touched, "index": k}
+    res.count("foreign_instrument_variants")
+    res.hist("foreign_instrument_kinds", kind)
+    try:
+        got = snapshot.snap_synth(workload.load(iffparse.build(out)))["module"]["payload"]
+    except Exception as e:
+        res.violation(f"C16:foreign-variant-unloadable:{kind}:{workload.exc_key(e)}", f"{kind}: {e!r}", desc)
+        return
+    names = {0x102: "volume_envelope", 0x103: "panning_envelope", 0x104: "pitch_envelope"}
+    for chnm, name in names.items():
+        if chnm != dropped and got[name] != base[name]:
+            res.violation(f"C16:foreign-variant:{kind}:{name}", f"{kind} (dropped chunk {dropped and hex(dropped)}): {name}, whose chunk is present, loads as {snapshot._short(got[name])}, "
+                                                                f"from the complete file as {snapshot._short(base[name])}", desc)
+            return
+    for i in range(4):
+        if 0x105 + i != dropped and got["effect_control_envelopes"][i] != base["effect_control_envelopes"][i]:
+            res.violation(f"C16:foreign-variant:{kind}:effect_control_envelopes", f"{kind}: effect control envelope {i} differs from the complete file's", desc)
+            return
+    for slot, s in base["samples"].items():
+        g = got["samples"].get(slot)
+        if g is None or (g["format"], g["channels"], g["data"]) != (s["format"], s["channels"], s["data"]):
+            res.violation(f"C16:foreign-variant:{kind}:sample", f"{kind} ({touched}): sample {slot} loads with format/channels {None if g is None else (g['format'], g['channels'])}, "
+                                                                f"the documented bits say {(s['format'], s['channels'])}", desc)
+            return
+
+
 def check_legacy(res, chunks, rng, k):
     kind, raw, expect = make_variant(chunks, rng)
     res.count("legacy_variants")
@@ -343,6 +396,18 @@ def run_shard(spec_, res):
     rng = random.Random(env.shard_seed(spec_["shard"]) + 77)
     for k in range(spec_["legacy"]):
         check_legacy(res, chunks, rng, k)
+    import rv.api as _api
+    for k in range(max(6, spec_["legacy"] // 4)):
+        src, is_gen = chunks, False
+        if k % 3:
+            # ... and generated instruments (envelopes with up to 300 points and arbitrary levels, any sample formats)
+            try:
+                gc = workload.module_case(seed, 777000 + spec_["shard"] * 100 + k, tier, "Sampler", ctx="synth")
+                src = [(c_[0], c_[1]) for c_ in iffparse.parse(_api.Synth(gc.obj).read())]
+                is_gen = True
+            except Exception:
+                pass
+        foreign_variants(res, src, rng, k, generated=is_gen)
     for name, msg in monitors.take_failures():
         res.violation(f"C16:ambient:{name}", msg, {"monitor": name})
 
